@@ -132,6 +132,94 @@ fn dispatch(cmd: &str, a: &[&str]) -> Result<Vec<String>, String> {
             out.push(hex(format!("{}", stream.flushes).as_bytes()));
             Ok(out)
         }
+        "pool" => {
+            // args: N, then one token per task: i = instant, r = rendezvous of all r tasks, s = slow (150 ms), p = panics
+            // reply: completed-count, per-task execution counts, max observed concurrency
+            use std::sync::{Arc, Mutex, Condvar};
+            use std::sync::atomic::{AtomicUsize, Ordering};
+            use std::time::{Duration, Instant};
+            let n: usize = a[0].parse().unwrap();
+            // tokens after N may be given raw (i r s p B) or hex-encoded by the python client
+            let toks: Vec<String> = a[1..].iter().map(|t| if t.len() == 2 && t.chars().all(|c| c.is_ascii_hexdigit()) { ustr(t) } else { t.to_string() }).collect();
+            let backlog = !toks.is_empty() && toks[0] == "B";
+            let kinds: Vec<String> = toks[(if backlog { 1 } else { 0 })..].to_vec();
+            let nrv = kinds.iter().filter(|k| k.as_str() == "r").count();
+            let pool = crate::thread_pool::ThreadPool::new(n);
+            let counts: Arc<Vec<AtomicUsize>> = Arc::new((0..kinds.len()).map(|_| AtomicUsize::new(0)).collect());
+            let done = Arc::new(AtomicUsize::new(0));
+            let running = Arc::new(AtomicUsize::new(0));
+            let maxrun = Arc::new(AtomicUsize::new(0));
+            let arrived = Arc::new((Mutex::new(0usize), Condvar::new()));
+            // backlog mode: occupy every worker with a gate task first, queue the real tasks behind them, then open the gate
+            let gate = Arc::new((Mutex::new((0usize, false)), Condvar::new()));
+            if backlog {
+                for _ in 0..n {
+                    let gate = gate.clone();
+                    pool.execute(move || {
+                        let (m, cv) = &*gate;
+                        let mut g = m.lock().unwrap();
+                        g.0 += 1; cv.notify_all();
+                        let deadline = Instant::now() + Duration::from_millis(3000);
+                        while !g.1 {
+                            let left = deadline.saturating_duration_since(Instant::now());
+                            if left.is_zero() { break; }
+                            let (g2, _) = cv.wait_timeout(g, left).unwrap(); g = g2;
+                        }
+                    });
+                }
+                let (m, cv) = &*gate;
+                let mut g = m.lock().unwrap();
+                let deadline = Instant::now() + Duration::from_millis(2000);
+                while g.0 < n {
+                    let left = deadline.saturating_duration_since(Instant::now());
+                    if left.is_zero() { break; }
+                    let (g2, _) = cv.wait_timeout(g, left).unwrap(); g = g2;
+                }
+            }
+            for (i, k) in kinds.iter().enumerate() {
+                let k = k.clone(); let counts = counts.clone(); let done = done.clone(); let arrived = arrived.clone();
+                let running = running.clone(); let maxrun = maxrun.clone();
+                pool.execute(move || {
+                    counts[i].fetch_add(1, Ordering::SeqCst);
+                    let r = running.fetch_add(1, Ordering::SeqCst) + 1;
+                    maxrun.fetch_max(r, Ordering::SeqCst);
+                    if k == "r" {
+                        let (m, cv) = &*arrived;
+                        let mut g = m.lock().unwrap();
+                        *g += 1;
+                        cv.notify_all();
+                        let deadline = Instant::now() + Duration::from_millis(2500);
+                        while *g < nrv {
+                            let left = deadline.saturating_duration_since(Instant::now());
+                            if left.is_zero() { running.fetch_sub(1, Ordering::SeqCst); return; }
+                            let (g2, _) = cv.wait_timeout(g, left).unwrap();
+                            g = g2;
+                        }
+                    } else if k == "s" {
+                        std::thread::sleep(Duration::from_millis(150));
+                    } else if k == "p" {
+                        running.fetch_sub(1, Ordering::SeqCst);
+                        done.fetch_add(1, Ordering::SeqCst);
+                        panic!("task panics");
+                    }
+                    running.fetch_sub(1, Ordering::SeqCst);
+                    done.fetch_add(1, Ordering::SeqCst);
+                });
+            }
+            if backlog {
+                std::thread::sleep(Duration::from_millis(30));
+                let (m, cv) = &*gate;
+                let mut g = m.lock().unwrap(); g.1 = true; cv.notify_all();
+            }
+            let deadline = Instant::now() + Duration::from_millis(4000);
+            while done.load(Ordering::SeqCst) < kinds.len() && Instant::now() < deadline { std::thread::sleep(Duration::from_millis(5)); }
+            let mut out = vec![hex(format!("{}", done.load(Ordering::SeqCst)).as_bytes())];
+            let cs: Vec<String> = counts.iter().map(|c| c.load(Ordering::SeqCst).to_string()).collect();
+            out.push(hex(cs.join(",").as_bytes()));
+            out.push(hex(format!("{}", maxrun.load(Ordering::SeqCst)).as_bytes()));
+            std::mem::forget(pool);
+            Ok(out)
+        }
         _ => include!("oracle_cmds.rs"),
     }
 }
